@@ -12,7 +12,7 @@ def _dist_key(op, impl):
 
 CONFIG = dict(
     prop="C23",
-    ready=False,
+    ready=True,
     manifest=dict(
         text="Lean 4 theorems, for ALL item-size lists / hash counts, all empty-message sizes and all limits max >= framing + "
              "empty message: each of New{GiveBlocks,GiveTxns,GivePeers,AnnounceTxns,GetTxns}Message returns (never panics) exactly the "
